@@ -809,6 +809,11 @@ def run_comprehension(interp, node, g, st, x: V, kind):
     if items is not None:
         yield from _comp_concrete(interp, st, items, body)
         return
+    if x.shadow is not None and x.root is not None and kind != "dict":
+        nat = _native_comprehension(interp, node, g, st, x)
+        if nat is not None:
+            yield from nat
+            return
     if g.ifs:
         raise Unsupported("filtered comprehension over a symbolic sequence")
     for s, r in as_sym_seq(interp, st, x):
@@ -819,6 +824,57 @@ def run_comprehension(interp, node, g, st, x: V, kind):
         if x.kind == "ref" and isinstance(s.heap[x.d], HList) and s.heap[x.d].items is None:
             src = (s.heap[x.d].ln, s.heap[x.d].arr)
         yield from quantified_map(interp, s, r[1], body, seq_src=src)
+
+
+_PURE_BUILTINS = {"len", "str", "int", "ord", "chr", "repr", "isinstance", "bool", "abs", "min", "max", "type", "tuple", "float"}
+
+
+def _native_comprehension(interp, node, g, st, x):
+    """A comprehension over a datum of D whose element expression and filters are PURE (constants, the loop variable,
+    constant locals, string/number operators, method calls on those, a few side-effect-free builtins) is evaluated by
+    CPython itself on the representative of every live cell — the same probing as for any other built-in operation.
+    Returns None when the comprehension is not of that shape."""
+    import builtins as _b
+    if not isinstance(g.target, ast.Name):
+        return None
+    tname = g.target.id
+    consts = {}
+    for sub in [node.elt] + list(g.ifs):
+        for n in ast.walk(sub):
+            if isinstance(n, (ast.Lambda, ast.Await, ast.Yield, ast.YieldFrom, ast.NamedExpr, ast.ListComp, ast.SetComp, ast.DictComp,
+                              ast.GeneratorExp, ast.Starred)):
+                return None
+            if isinstance(n, ast.Call):
+                if isinstance(n.func, ast.Name):
+                    if n.func.id not in _PURE_BUILTINS or n.func.id in st.env:
+                        return None
+                elif not isinstance(n.func, ast.Attribute):
+                    return None
+            if isinstance(n, ast.Name) and n.id != tname:
+                if n.id in st.env:
+                    v = st.env[n.id]
+                    if v is None or v.kind != "const" or v.shadow is not None or callable(v.d):
+                        return None
+                    consts[n.id] = v.d
+                elif not hasattr(_b, n.id):
+                    g_ = st.env.get("$globals") or interp.globals
+                    if n.id not in g_ or callable(g_[n.id]):
+                        return None
+                    consts[n.id] = g_[n.id]
+    code = compile(ast.Expression(body=ast.fix_missing_locations(ast.ListComp(
+        elt=node.elt, generators=[ast.comprehension(target=g.target, iter=ast.Name(id="__it__", ctx=ast.Load()), ifs=g.ifs, is_async=0)]))),
+        "<pure comprehension>", "eval")
+
+    def fn(it, consts=consts, code=code):
+        return tuple(eval(code, {"__builtins__": _b}, {**consts, "__it__": it}))  # noqa: S307
+
+    def gen():
+        for s, r in interp.shadow_apply(st, fn, [x], name=f"pure_comprehension_{node.lineno}_{node.col_offset}"):
+            if r[0] != "ok":
+                yield s, r
+            else:
+                yield s, ("ok", r[1])
+    return gen()
 
 
 def _comp_concrete(interp, st, items, body):
